@@ -29,8 +29,8 @@ CHECKS = {
     design="§3 C03"),
  "C04": dict(
     technique="bounded symbolic execution (CrossHair/z3): the etree and dom node primitives in lock-step under a symbolic operation script; the real parser with every builder configuration on catalogue contexts + tokens chosen by symbolic index, abstract trees compared",
-    text="(a) primitives: every script of <= 2 (quick) / 3 (thorough) operations out of appendChild, insertBefore, insertText(+before), reparentChildren, removeChild, attribute assignment, cloneNode with symbolic operands on a 5-node tree, respecting the call preconditions of the tree-construction code, leaves the ElementTree-backed and the minidom-backed trees equal (and hasContent equal) after every step. "
-         "(b) parser level: for every second / every one of 73 contexts and each token (4 tag shapes x ~140 names + 13 others) [thorough: + a second start/end tag over 24 names] + 3 probes, the abstract trees of etree(fullTree), dom, each with namespacing on and off, are equal (HTML namespace normalised), and the etree root-element form equals the html subtree of the full tree.",
+    text="(a) primitives: every script of <= 2 operations (4 nodes quick, 5 nodes thorough) out of appendChild, insertBefore, insertText(+before), reparentChildren, removeChild, attribute assignment, cloneNode with symbolic operands on a 5-node tree, respecting the call preconditions of the tree-construction code, leaves the ElementTree-backed and the minidom-backed trees equal (and hasContent equal) after every step. "
+         "(b) parser level: for every second / every one of 73 contexts and each token (4 tag shapes x ~140 names + 13 others) [thorough, every second context: + a second start/end tag over 8 names] + 3 probes, the abstract trees of etree(fullTree), dom, each with namespacing on and off, are equal (HTML namespace normalised), and the etree root-element form equals the html subtree of the full tree.",
     note="R7 readers (norm_et/norm_dom) trusted; primitive-call preconditions (fresh target for reparentChildren, no text after a removed element) are assumptions derived from the call sites; lxml not installed. " + NOTE_COMMON,
     design="§3 C04"),
  "C11": dict(
@@ -54,7 +54,7 @@ CHECKS = {
  "C09": dict(
     technique="direct z3 queries generated from the live sanitizer regexes (regular-language emptiness on unbounded strings with alphabet compression; character-class coverage over every code point) + bounded symbolic execution (CrossHair/z3) of sanitize_token / allowed_token / sanitize_css with names, keys and text by symbolic index",
     text="z3: (1) no style string (unbounded) that survives the url()-removal regex and both gauntlet regexes (read from the AST of sanitize_css, compressed to 28 character classes) contains 'url' WS* '(' in any case; (2) the class stripped from URI values covers every C0 control and space and no scheme character, for every code point. "
-         "CrossHair: element gate over every name of any allow-list entry + 16 dangerous names x 6 namespaces x tag types; attribute gate over all ordered selections of <= 3 keys from a 30-key alphabet with default and custom allow-lists; URI gate for every URI-valued attribute with values over a 16-character URL class alphabet (<= 3/4 chars) vs the browser scheme rule (R6), and 11 concrete dangerous schemes with a hole at every position under the default lists incl. data: content types; CSS gate over an 18-character CSS alphabet (<= 3/5 chars) x 4 heads.",
+         "CrossHair: element gate over every name of any allow-list entry + 16 dangerous names x 6 namespaces x tag types; attribute gate over all ordered selections of <= 3 keys from a 30-key alphabet with default and custom allow-lists; URI gate for every URI-valued attribute with values over a 16-character URL class alphabet (<= 3/4 chars) vs the browser scheme rule (R6), and 11 concrete dangerous schemes with a hole at every position under the default lists incl. data: content types; CSS gate over an 18-character CSS alphabet (<= 3/4 chars) x 4 heads.",
     note="R6 browser scheme / data-URL MIME rules are my transcription of WHATWG URL / fetch; urlsplit's lru_cache unwrapped; all-Unicode closure only through the two z3 queries. " + NOTE_COMMON,
     design="§3 C09"),
  "C15": dict(
@@ -77,7 +77,7 @@ CHECKS = {
     design="§3 C12"),
  "C10": dict(
     technique="bounded symbolic execution (CrossHair/z3): the real parse -> sanitize -> serialize -> re-parse pipeline on inputs composed by symbolic index from mutation-XSS shaped pieces with symbolic options, re-parsed tree checked against the sanitizer's allow-lists; composition with C09 and C08",
-    text="For every input composed of a fragment container, two context openers (32: foreign content, integration points, raw-text / RCDATA elements, noscript, tables, select, template, plaintext ...; quick: 32 x 3, thorough: 32 x 16 in 3 containers) and one of 48 payloads (doubly-encoded references in unquoted values, several forbidden URLs on one element, attribute-value breakouts of raw-text elements, comments, CDATA, foreign-content breakouts, obfuscated javascript: URLs, backticks, NUL ...), with optional-tag omission, quoting mode, scripting of both parses and the re-parse mode (same container / div / document) symbolic: "
+    text="For every input composed of a fragment container, two context openers (32: foreign content, integration points, raw-text / RCDATA elements, noscript, tables, select, template, plaintext ...; quick: 32 x 3, thorough: 32 x 8 in 2 containers) and one of 48 payloads (doubly-encoded references in unquoted values, several forbidden URLs on one element, attribute-value breakouts of raw-text elements, comments, CDATA, foreign-content breakouts, obfuscated javascript: URLs, backticks, NUL ...), with optional-tag omission, quoting mode, scripting of both parses and the re-parse mode (same container / div / document) symbolic: "
          "every element, attribute, URL scheme (browser rule R6), data: content type and style value of the RE-PARSED tree is on the sanitizer's allow-lists and no comment reappears. Plus the concrete lemma that no allow-listed element is written raw but parsed as data or vice versa.",
     note="Inputs are instances of the piece grammar only; one listed known finding (namespace confusion after an escaped integration point) is the single problem class ignored. " + NOTE_COMMON,
     design="§3 C10"),
@@ -89,7 +89,7 @@ CHECKS = {
     design="§3 C07"),
  "C01": dict(
     technique="bounded symbolic execution (CrossHair/z3) of tree-construction KERNELS against few-line references written from the standard: scope tests, implied end tags, fragment insertion-mode reset, integration points, quirks-mode facts, Noah's-ark / reconstruction of active formatting elements; inputs by symbolic index",
-    text="KERNEL OBLIGATIONS ONLY - whole-algorithm equivalence is not claimed. Decided: elementInScope for 5 scope kinds x 5/10 targets on every stack of depth <= 2/3 over a 17/27-element class alphabet (incl. same local names in foreign namespaces); generateImpliedEndTags on stacks of depth <= 2/3 x every exclusion; resetInsertionMode for 25 fragment contexts; isHTMLIntegrationPoint / isMathMLTextIntegrationPoint for 16 elements x 9 encoding values; the quirks-mode decision (and the p/table nesting it controls) for 29 doctypes x keyword case; the element chain reconstructed after '<p>' + <= 4/5 formatting start tags + 'x</p>y' against the Noah's-ark rule. "
+    text="KERNEL OBLIGATIONS ONLY - whole-algorithm equivalence is not claimed. Decided: elementInScope for 5 scope kinds x 5/10 targets on every stack of depth <= 2/3 over a 17/19-element class alphabet (incl. same local names in foreign namespaces); generateImpliedEndTags on stacks of depth <= 2/3 x every exclusion; resetInsertionMode for 25 fragment contexts; isHTMLIntegrationPoint / isMathMLTextIntegrationPoint for 16 elements x 9 encoding values; the quirks-mode decision (and the p/table nesting it controls) for 29 doctypes x keyword case; the element chain reconstructed after '<p>' + <= 4/5 formatting start tags + 'x</p>y' against the Noah's-ark rule. "
          "The rest of the algorithm is exercised (not compared with the standard) by C03 totality / skeleton, C04 builder agreement, C16 strictness, C07 round trip, C12 reuse.",
     note="R4 references are my transcriptions of the 2020 standard; the quirks reference is 29 facts, not the full identifier table; one listed known finding covers the differences from revisions after html5lib's model (template, rb/rtc, td/th/head fragment reset, name-only implied end tags). NOT APPLICABLE in full: equality with the WHATWG algorithm on all inputs (no independent model offline). " + NOTE_COMMON,
     design="§3 C01"),
